@@ -18,6 +18,7 @@ def shortOutcome : Outcome → String
   | .refused st why => s!"refused-{st}-{whyName why}"
   | .badRequest => "badreq"
   | .unreadable => "unreadable"
+  | .routeError => "routeerr"
 
 /-- split a token list at the `|` tokens -/
 def splitBar (toks : List String) : List (List String) :=
@@ -40,12 +41,11 @@ def handle : List String → String
       | .embeds => "embeds"
       | .clean => "clean"
     | _, _ => "bad-op"
-  | ["step", tag, minor, via] =>
-    match bytesOfHex tag, natOf minor, optBytes via with
-    | some t, some m, some v =>
-      let h : C16.HMap := match v with
-        | some v => [(viaName, [v])]
-        | none => []
+  | ["step", tag, minor, lines] =>
+    match bytesOfHex tag, natOf minor, bytesList lines with
+    | some t, some m, some ls =>
+      -- the header map the Via modifier sees: all Via field lines under the one canonical key
+      let h : C16.HMap := if ls.isEmpty then [] else [(viaName, ls)]
       match viaStep { tag := t, name := [] } m h with
       | none => "loop"
       | some h' => s!"ok {hexList (hget h' viaName)}"
